@@ -113,6 +113,14 @@ class Ctx:
         self.ds9_text = str(DS9_TEXT)
         self.crtf_text = str(CRTF_TEXT)
         self.fits_table = _fits_table()
+        # a table as a caller may hold it: no unit on the ROTANG column
+        from astropy.table import Column as _Column
+        self.fits_table_nounit = _fits_table()
+        self.fits_table_nounit.replace_column('ROTANG', _Column(np.array(self.fits_table_nounit['ROTANG'].value), name='ROTANG'))
+        # a region the caller keeps editing between queries (not part of the compared inputs: the two scratch operations put it
+        # into a defined state themselves)
+        self.scratch = self.reg['ellipseannulus'].copy()
+        self.scratch_c0 = (float(self.scratch.center.x), float(self.scratch.center.y))
         # option objects held by the caller (inputs of the writers)
         from astropy.io import fits as _fits
         self.hdr = _fits.Header([('ORIGIN', 'me'), ('OBSERVER', 'somebody')])
@@ -147,7 +155,7 @@ class Ctx:
         d = {n: FP.fp(r) for n, r in self.reg.items()}
         d['wcs'] = FP.fp(self.wcs)
         for k in ('img_f', 'img_i', 'datamask', 'pix_q', 'pix_s', 'sky_q', 'sky_s', 'rot_c', 'rot_a', 'list_pix', 'list_sky',
-                  'list_mixed', 'list_crtf', 'ds9_text', 'crtf_text', 'fits_table', 'masks'):
+                  'list_mixed', 'list_crtf', 'ds9_text', 'crtf_text', 'fits_table', 'fits_table_nounit', 'masks'):
             d[k] = FP.fp(getattr(self, k))
         for k in ('list_pix', 'list_sky', 'list_mixed', 'list_crtf'):
             vals = list(self.reg.values())
@@ -207,6 +215,16 @@ def _filebytes(path):
 def _ser(obj, format_, **kw):
     out = obj.serialize(format=format_, **kw)
     return out if isinstance(out, str) else FP.fp(out)
+
+
+def _scratch(c, state_b):
+    from regions import PixCoord, RegionMeta
+    r = c.scratch
+    x0, y0 = c.scratch_c0
+    r.center = PixCoord(x0 + 2.5, y0 - 1.25) if state_b else PixCoord(x0, y0)
+    r.meta = RegionMeta({'include': False}) if state_b else RegionMeta({'text': 'sea'})
+    m = r.to_mask('center')
+    return [FP.fp(r.contains(c.pix_q)), FP.fp(m.data), FP.fp(r.bounding_box)]
 
 
 def _write(c, obj, fmt, ext, **kw):
@@ -272,6 +290,11 @@ OPS = {
     'write_fits': lambda c: [_try(lambda: _write(c, c.list_pix, 'fits', '.fits')), _try(lambda: _write(c, c.reg['ellipse'], 'fits', '.fits'))],
     'write_fits_header': lambda c: [_try(lambda: _write(c, c.list_pix, 'fits', '.fits', header=c.hdr)),
                                     _try(lambda: _write(c, c.reg['circle'], 'fits', '.fits', header=c.hdr_dict))],
+    'parse_fits_nounit': lambda c: _try(lambda: FP.fp(_R().parse(c.fits_table_nounit, format='fits'))),
+    # the caller's own region in state A (original centre, included) resp. state B (moved, excluded), then asked; what it answers must
+    # be what its CURRENT state says, whatever it was asked before
+    'scratch_query_a': lambda c: _try(lambda: _scratch(c, False)),
+    'scratch_query_b': lambda c: _try(lambda: _scratch(c, True)),
     'parse_ds9': lambda c: _try(lambda: FP.fp(_R().parse(c.ds9_text, format='ds9'))),
     'parse_crtf': lambda c: _try(lambda: FP.fp(_R().parse(c.crtf_text, format='crtf'))),
     'parse_fits': lambda c: _try(lambda: FP.fp(_R().parse(c.fits_table, format='fits'))),
@@ -297,7 +320,7 @@ OPS = {
 OP_NAMES = list(OPS)
 # operations that touch parsers/serialisers/converters (module-level tables, metadata dicts): all ordered
 # triples of these are executed in the thorough tier
-TRIPLE_OPS = [o for o in OP_NAMES if o.startswith(('ser_', 'write_', 'parse_', 'read_', 'to_sky', 'to_pixel', 'copy', 'as_artist', 'combine_or', 'get_formats', 'chain_'))]
+TRIPLE_OPS = [o for o in OP_NAMES if o.startswith(('ser_', 'write_', 'parse_', 'read_', 'to_sky', 'to_pixel', 'copy', 'as_artist', 'combine_or', 'get_formats', 'chain_', 'scratch_'))]
 
 
 def _R():
